@@ -99,7 +99,7 @@ func main() {
 					go func() { evalDone <- m.Eval("verif-c13", func() { evalRan.Store(true) }, context.Background()) }()
 					time.Sleep(30 * time.Millisecond)
 				}
-				var direct, stateBased atomic.Int32
+				var direct, stateBased, late atomic.Int32
 				m.OnDispose(func(id string, ctx context.Context) { direct.Add(1) })
 				if mixin {
 					if _, err := m.HandlersBind(&graceful{ran: &stateBased}); err != nil {
@@ -126,7 +126,12 @@ func main() {
 				if where == "during-handler" {
 					// Dispose lands from another goroutine while a final handler is running
 					m.DisposeTimeout = 200 * time.Millisecond
-					fin["AState"] = func(e *am.Event) { close(entered); <-release }
+					fin["AState"] = func(e *am.Event) {
+						close(entered)
+						<-release
+						// a dispose handler registered while the disposal waits for the queue to drain
+						m.OnDispose(func(id string, ctx context.Context) { late.Add(1) })
+					}
 				}
 				binding, err := m.HandlersBindMaps(neg, fin)
 				if err != nil {
@@ -217,6 +222,9 @@ func main() {
 					if direct.Load() != 1 {
 						bad = fmt.Sprintf("OnDispose handler ran %d times", direct.Load())
 					}
+					if where == "during-handler" && late.Load() != 1 {
+						bad = fmt.Sprintf("a dispose handler registered while the disposal was draining the queue ran %d times", late.Load())
+					}
 					if mixin && where == "parent-ctx" && stateBased.Load() != 1 {
 						bad = fmt.Sprintf("state-based dispose handler ran %d times on parent-context cancel", stateBased.Load())
 					}
@@ -259,6 +267,35 @@ func main() {
 						failing = append(failing, name+" => "+bad2)
 					}
 				}
+			}
+		}
+	}
+	// two WhenTime subscriptions sharing a state, one of them completing state by state
+	{
+		total++
+		runCase := func() string {
+			ctx, cancel := context.WithCancel(context.Background())
+			defer cancel()
+			m := am.New(ctx, am.Schema{"A": {}, "B": {}}, &am.Opts{Id: "verif-c13"})
+			both := m.WhenTime(am.S{"A", "B"}, am.Time{1, 1}, nil)
+			long := m.WhenTime1("A", 1001, nil)
+			m.Add1("A", nil)
+			m.Add1("B", nil)
+			if !closedWithin(both, time.Second) {
+				return "WhenTime(A,B; 1,1) still open after both states ticked"
+			}
+			m.Dispose()
+			if !closedWithin(m.WhenDisposed(), 5*time.Second) {
+				return "WhenDisposed still open 5s after disposal"
+			}
+			if !closedWithin(long, time.Second) {
+				return "WhenTime(A, 1001), which shared state A with a completed two-state subscription, still open after disposal"
+			}
+			return ""
+		}
+		if bad := runCase(); bad != "" {
+			if bad2 := runCase(); bad2 != "" {
+				failing = append(failing, "two WhenTime subscriptions sharing a state => "+bad2)
 			}
 		}
 	}
